@@ -4,7 +4,7 @@
    fragments as gotrans translates them from today's source. *)
 From Coq Require Import ZArith NArith Bool Lia ZifyBool ZifyN List.
 From Soy Require Import Model.Bytes Model.Num Model.Outcome Model.Values Generated.Tables Model.Escape Model.Directives
-  Model.Print Model.Ast Model.Interp Proofs.SourceTieBase Proofs.SourceTieData.
+  Model.Print Model.Ast Model.Interp Proofs.SourceTieBase Proofs.SourceTieValue.
 Import ListNotations.
 Open Scope N_scope.
 
@@ -61,6 +61,5 @@ Lemma entry_mode_matches_source (ns : N) :
   Z.of_N (entry_mode ns) = src_soyhtml_Renderer_Execute_autoescapeMode (Z.of_N ns).
 Proof.
   unfold entry_mode, src_soyhtml_Renderer_Execute_autoescapeMode. cbv zeta.
-  destruct (ns =? 0) eqn:E; [apply N.eqb_eq in E; subst; reflexivity|].
-  replace (Z.of_N ns =? 0)%Z with false by lia. reflexivity.
+  destruct (ns =? 0) eqn:E; decide_ifs; lia.
 Qed.
